@@ -1495,6 +1495,9 @@ where
                 fat_start + BlockCount(u32::from(bpb.num_fats()) * bpb.fat_size());
             // Safe to unwrap since this is a Fat32 Type
             let info_location = bpb.fs_info_block().unwrap();
+            if lba_start.0.checked_add(info_location.0).is_none() {
+                return Err(Error::FormatError("Info sector beyond end of disk"));
+            }
             let mut volume = FatVolume {
                 lba_start,
                 num_blocks,
